@@ -29,9 +29,13 @@ def St.ownModel (s : St) : OwnParams :=
 def cidSet (plain : Bool) (wire : List (String × Int)) : Int :=
   if plain then 0 else (populate (toParamList wire)).activeConnectionIDLimit
 
-/-- Config-derived enforced limits, model view / ghost view -/
-def St.enfModel (s : St) : Limits := enforced s.pc (cidSet s.plain s.mWire)
-def St.enfGhost (s : St) : Limits := enforced s.pc (cidSet s.plain s.gWire)
+/-- the Config the components are built from (plain client: the populated Config) -/
+def effConfig (plain : Bool) (user : Config) (wire : List (String × Int)) : Config :=
+  if plain then populateConfig user else specConfig user (populate (toParamList wire))
+
+/-- enforced limits as the code derives them, model view / ghost view -/
+def St.enfModel (s : St) : Limits := enforced (effConfig s.plain s.user s.mWire) (cidSet s.plain s.mWire)
+def St.enfGhost (s : St) : Limits := enforced (effConfig s.plain s.user s.gWire) (cidSet s.plain s.gWire)
 
 /-- sections of the read-back text: `name: body | name: body …` -/
 def sections (impl : String) : List (String × String) :=
@@ -181,7 +185,7 @@ def step (s : St) (op impl : String) : St × StepOut :=
     let ownTxt := fmtOwn own
     let wireSec := (sectionOf impl "wire").getD ""
     let iscid := (fieldOf wireSec "iscid").getD ""
-    let model := s!"own: {ownTxt} | qlog: {ownTxt} | wire: {wireSec} | peer: {fmtOwn (peerView s.modelWire)} iscid={iscid} | enf: {fmtEnf s.pc (cidSet s.plain s.mWire)}"
+    let model := s!"own: {ownTxt} | qlog: {ownTxt} | wire: {wireSec} | peer: {fmtOwn (peerView s.modelWire)} iscid={iscid} | enf: {fmtEnf (effConfig s.plain s.user s.mWire) (cidSet s.plain s.mWire)}"
     let cov := if (uncovered (advOf s.modelWire) s.enfModel).isEmpty then "readback:covered" else "readback:uncovered"
     (s, { model := model, tags := ["readback", cov], fails := readbackMonitors s impl })
   | "ex" :: rest =>
